@@ -7,6 +7,8 @@
  *                                take every residue 0, 2, 4, 6 mod 8 the property allows      → ok
  *   lists i j …                  mark these nodes as list nodes             → ok
  *   iter in|pre|post|list [K]    iterate (to completion, or K ≥ 1 calls)    → seq …   (post: node/parent)
+ *   riter in|pre|post|list [K]   the same, but the iterator object is NOT refilled with garbage first: it is re-used as
+ *                                its previous use (any order, completed, cut short or completed early) left it
  *   resume                       finish an iteration cut short by K         → seq …
  *   trav in|pre|post|list        the recursive traversal                    → seq …
  *   owns i j [i j …]             node i owns the separate tree rooted at node j (a root of the forest the
@@ -286,7 +288,7 @@ static void *run(void *arg)
 				put_ptr(nodes[i]->n.right);
 			}
 			printf("\n");
-		} else if (!strcmp(op, "iter")) {
+		} else if (!strcmp(op, "iter") || !strcmp(op, "riter")) {     /* riter: the iterator object as its previous use left it */
 			char *o = strtok_r(NULL, " \t\r\n", &save);
 			char *k = strtok_r(NULL, " \t\r\n", &save);
 			long calls = k ? atol(k) : -1; /* -1: to completion */
@@ -295,7 +297,8 @@ static void *run(void *arg)
 				puts("bad-op");
 				continue;
 			}
-			memset(&it, 0xa5, sizeof it);
+			if (op[0] != 'r')
+				memset(&it, 0xa5, sizeof it);
 			post = !strcmp(o, "post");
 			printf("seq");
 			fflush(stdout);
